@@ -185,7 +185,9 @@ func c04SignalsDuringInit(a *Anchors, r *core.Report) {
 		case t == "processes":
 			second = in
 		case t != "" && t == table:
-			first = in
+			if first == nil {
+				first = in
+			}
 		}
 	})
 	switch {
@@ -197,5 +199,130 @@ func c04SignalsDuringInit(a *Anchors, r *core.Report) {
 		r.Bad(rule, key2, fname(deliver), p.Pos(second.Pos()), inst2, "the process table is consulted first: spawn registers the process and then takes it out of '"+table+"', so a lookup in this order can miss both")
 	default:
 		r.OK(rule, key2, fname(deliver), p.Pos(first.Pos()), inst2, "'"+table+"'.Load dominates processes.Load")
+	}
+}
+
+// c04NoEarlyWake: L13c — spawn switches a fresh process to Sleep just before it registers it. A
+// sender that found the process among the initializing ones and woke it in that moment would let it
+// run, and terminate, before it is registered and counted (the dead process is then stored for good
+// and node.Stop waits for it for ever). After its push the exit delivery helper therefore wakes a
+// process it found in the initializing table only behind the miss edge of a second lookup in that
+// table (spawn has taken it out, hence registered it); spawn wakes it otherwise. And spawn counts the
+// process (WaitGroup.Add) before it enters it into the process table.
+func c04NoEarlyWake(a *Anchors, r *core.Report) {
+	rule := "C04.L13c no-wake-before-registration"
+	r.Floor(rule, 2)
+	p := a.P
+	nodeT := a.NodeT.Obj().Name()
+	spawn := p.Func("node", nodeT, "spawn")
+	deliver := p.Func("node", nodeT, "sendExitMessage")
+	if spawn == nil || deliver == nil {
+		r.Unk(rule, "C04.L13c|anchors", "", "", "spawn and sendExitMessage are found", "missing")
+		return
+	}
+	tableOf := func(in ssa.Instruction, method string) string {
+		c, ok := in.(*ssa.Call)
+		if !ok {
+			return ""
+		}
+		if m, okm := syncMapCall(c.Common()); !okm || m != method {
+			return ""
+		}
+		if own, _ := fieldOwner(c.Common().Args[0]); own != a.NodeT {
+			return ""
+		}
+		_, path, okp := fieldPath(c.Common().Args[0])
+		if !okp || len(path) == 0 {
+			return ""
+		}
+		return path[len(path)-1]
+	}
+	// the initializing table: looked up in deliver before `processes`
+	var first, procs ssa.Instruction
+	table := ""
+	eachInstr(deliver, func(in ssa.Instruction) {
+		t := tableOf(in, "Load")
+		if t == "processes" {
+			procs = in
+		}
+	})
+	eachInstr(deliver, func(in ssa.Instruction) {
+		t := tableOf(in, "Load")
+		if t != "" && t != "processes" && procs != nil && instrDominates(in, procs) && first == nil {
+			first, table = in, t
+		}
+	})
+	key := "C04.L13c|" + fname(deliver) + "|wake"
+	inst := "a process found among the initializing ones is woken by the sender only when a second lookup after the push no longer finds it there"
+	if first == nil {
+		r.OK(rule, key, fname(deliver), p.Pos(deliver.Pos()), inst, "the delivery consults no table of initializing processes (C04.L13 judges that)")
+	} else {
+		var push ssa.Instruction
+		eachInstr(deliver, func(in ssa.Instruction) {
+			if cc := callCommon(in); cc != nil && cc.IsInvoke() && cc.Method.Name() == "Push" {
+				push = in
+			}
+		})
+		okv := tupleExtract(first.(ssa.Value), 1)
+		var starts []Point
+		if okv != nil && push != nil {
+			if refs := okv.Referrers(); refs != nil {
+				for _, rf := range *refs {
+					iff, isIf := rf.(*ssa.If)
+					if isIf && instrReachable(push, iff) {
+						starts = append(starts, Point{iff.Block().Succs[0], 0})
+					}
+				}
+			}
+		}
+		cut := map[Edge]bool{}
+		eachInstr(deliver, func(in ssa.Instruction) {
+			if tableOf(in, "Load") != table || in == first || push == nil || !instrReachable(push, in) {
+				return
+			}
+			if v := tupleExtract(in.(ssa.Value), 1); v != nil {
+				if _, miss, complete := boolEdges(v); complete {
+					for _, e := range miss {
+						cut[e] = true
+					}
+				}
+			}
+		})
+		isWake := func(in ssa.Instruction) bool {
+			cc := callCommon(in)
+			return cc != nil && staticCallee(cc) == a.ProcWake
+		}
+		switch {
+		case push == nil || okv == nil:
+			r.Unk(rule, key, fname(deliver), p.Pos(first.Pos()), inst, "push or lookup result not found")
+		case len(starts) == 0:
+			r.Bad(rule, key, fname(deliver), p.Pos(push.Pos()), inst, "after the push nothing distinguishes a process found in '"+table+"': it is woken like a registered one — in the moment spawn has switched it to Sleep and not yet registered it, it runs and can terminate unregistered and uncounted")
+		case reachAvoidEdges(starts, cut, nil, isWake) != nil:
+			r.Bad(rule, key, fname(deliver), p.Pos(push.Pos()), inst, "the wake-up is reachable on the 'found in "+table+"' branch without a second lookup that misses: the process can be run before spawn has registered and counted it")
+		default:
+			r.OK(rule, key, fname(deliver), p.Pos(push.Pos()), inst, "on the 'found in "+table+"' branch the wake-up is behind the miss edge of a second lookup in '"+table+"'")
+		}
+	}
+	// spawn counts before it registers
+	key2 := "C04.L13c|" + fname(spawn) + "|counted-before-registered"
+	inst2 := "the process is counted in the node's wait group before it is entered into the process table"
+	var reg, add ssa.Instruction
+	eachInstr(spawn, func(in ssa.Instruction) {
+		if tableOf(in, "Store") == "processes" {
+			reg = in
+		}
+		if cc := callCommon(in); cc != nil {
+			if sf := staticCallee(cc); sf != nil && sf.Name() == "Add" && sf.Pkg != nil && sf.Pkg.Pkg.Path() == "sync" {
+				add = in
+			}
+		}
+	})
+	switch {
+	case reg == nil || add == nil:
+		r.Unk(rule, key2, fname(spawn), p.Pos(spawn.Pos()), inst2, "processes.Store or WaitGroup.Add not found")
+	case instrReachable(reg, add):
+		r.Bad(rule, key2, fname(spawn), p.Pos(add.Pos()), inst2, "WaitGroup.Add follows the registration: a sender that finds the Sleep process in the table runs it, it terminates and counts itself out before it was counted in (negative WaitGroup counter: panic)")
+	default:
+		r.OK(rule, key2, fname(spawn), p.Pos(add.Pos()), inst2, "Add is not reachable from processes.Store (it precedes it)")
 	}
 }
